@@ -1,9 +1,9 @@
 package main
 
 import (
-	"github.com/biogo/biogo/io/seqio"
 	"bytes"
 	"fmt"
+	"github.com/biogo/biogo/io/seqio"
 	"io"
 	"math/rand"
 	"reflect"
@@ -146,6 +146,18 @@ type c03Outcome struct {
 // c03Drive runs one reader over data: it draws the source and the reader settings, runs the calls (c03Core) and
 // books what was seen.
 func c03Drive(r *obs.Run, kind string, data []byte, origin string) c03Outcome {
+	idPrefix := ""
+	if kind == "fasta" && !strings.HasPrefix(origin, "catalogue") && r.Rng.Intn(8) == 0 {
+		// a reader set up for another header mark (several bytes, blanks among them); the input's header lines are
+		// rewritten to carry it, whatever else the input holds
+		idPrefix = []string{"> ", ">>", ";", ">\t", "> >", "#id="}[r.Rng.Intn(6)]
+		data = bytes.ReplaceAll(data, []byte("\n>"), []byte("\n"+idPrefix))
+		if len(data) > 0 && data[0] == '>' {
+			data = append([]byte(idPrefix), data[1:]...)
+		}
+		origin += fmt.Sprintf(" (header prefix %q)", idPrefix)
+		r.Count("fasta_readers_with_another_header_prefix", 1)
+	}
 	src := newSrc(r.Rng, data)
 	if len(data) > 0 && !strings.HasPrefix(origin, "catalogue") && r.Rng.Intn(6) == 0 { // the underlying reader fails part-way instead of reaching its end
 		src.failing, src.failAt = true, r.Rng.Intn(len(data)+1)
@@ -153,6 +165,7 @@ func c03Drive(r *obs.Run, kind string, data []byte, origin string) c03Outcome {
 		r.Count("failing_sources", 1)
 	}
 	p := c03DrawPick(r.Rng, kind, len(data) < 1<<20)
+	p.idPrefix = idPrefix
 	if strings.HasPrefix(origin, "catalogue") { // the bad lines may stand behind an earlier error: all of the input is read
 		p.past = true
 	}
@@ -183,7 +196,9 @@ func c03Book(r *obs.Run, out c03Outcome, f *c03Finding) {
 type c03Pick struct {
 	tmpl   int  // fasta: 1 = quality-carrying template; fastq: index of the quality encoding, 8 = plain template
 	noTime bool // gff: date parsing switched off
-	past   bool // the caller skips bad records: it goes on calling after the errors until io.EOF (or the call bound)
+	// fasta: the reader's IDPrefix, when not the default
+	idPrefix string
+	past     bool // the caller skips bad records: it goes on calling after the errors until io.EOF (or the call bound)
 }
 
 var c03Encodings = []alphabet.Encoding{alphabet.Sanger, alphabet.Sanger, alphabet.Solexa, alphabet.Illumina1_3, alphabet.Illumina1_5, alphabet.Illumina1_8, alphabet.Illumina1_9, alphabet.None}
@@ -227,6 +242,9 @@ func c03Core(kind string, data []byte, origin string, src *chunkReader, p c03Pic
 			tmpl = linear.NewQSeq("", nil, alphabet.Protein, alphabet.Sanger)
 		}
 		rd := fasta.NewReader(in, tmpl)
+		if p.idPrefix != "" {
+			rd.IDPrefix = []byte(p.idPrefix)
+		}
 		read = func() (interface{}, error) { s, err := rd.Read(); return s, err }
 	case "fastq":
 		var tmpl seqio.SequenceAppender
@@ -590,10 +608,16 @@ var c03Catalogue = func() []c03Cat {
 		}})
 	}
 	cat = append(cat, c03Cat{"gff", "gff start of zero", func(rng *rand.Rand) string {
-		return gffLine(rng, func(f []string) []string { f[3] = []string{"0", "00", "-0", "+0", "0x0", "0b0", "0o0", "0_0", "0X0", "000000"}[rng.Intn(10)]; return f })
+		return gffLine(rng, func(f []string) []string {
+			f[3] = []string{"0", "00", "-0", "+0", "0x0", "0b0", "0o0", "0_0", "0X0", "000000"}[rng.Intn(10)]
+			return f
+		})
 	}})
 	cat = append(cat, c03Cat{"gff", "gff bad strand", func(rng *rand.Rand) string {
-		return gffLine(rng, func(f []string) []string { f[6] = []string{"x", "++", "", "+-", "1", "*", "\x80", "\xff", "\xc3\xa9", "\x7f", string([]byte{byte(128 + rng.Intn(128))})}[rng.Intn(11)]; return f })
+		return gffLine(rng, func(f []string) []string {
+			f[6] = []string{"x", "++", "", "+-", "1", "*", "\x80", "\xff", "\xc3\xa9", "\x7f", string([]byte{byte(128 + rng.Intn(128))})}[rng.Intn(11)]
+			return f
+		})
 	}})
 	cat = append(cat, c03Cat{"gff", "gff non-numeric score", func(rng *rand.Rand) string {
 		return gffLine(rng, func(f []string) []string { f[5] = []string{"abc", "", "..", "1,5"}[rng.Intn(4)]; return f })
@@ -625,7 +649,10 @@ var c03Catalogue = func() []c03Cat {
 		}
 		if n >= 6 {
 			cat = append(cat, c03Cat{kind, kind + " bad strand", func(rng *rand.Rand) string {
-				return bedLine(rng, n, func(f []string) []string { f[5] = []string{"x", "++", "", "0", "\x80", "\xff", "\xc3\xa9", "\x7f", string([]byte{byte(128 + rng.Intn(128))})}[rng.Intn(9)]; return f })
+				return bedLine(rng, n, func(f []string) []string {
+					f[5] = []string{"x", "++", "", "0", "\x80", "\xff", "\xc3\xa9", "\x7f", string([]byte{byte(128 + rng.Intn(128))})}[rng.Intn(9)]
+					return f
+				})
 			}})
 		}
 		if n == 12 {
